@@ -7,6 +7,8 @@
 //!
 //! To add an input kind: implement `HInput` for its input type here, add a variant to `ast::IKind`, a runner
 //! to `kinds.rs`, and a worker crate (`./gen-workers.sh`).
+//!
+//! Version 4: the grapheme kinds `graphemes` (`&Graphemes`) and `gslice` (`&[&Grapheme]`) at the end of the file.
 
 use std::cell::{Cell, RefCell};
 use std::rc::Rc;
@@ -17,8 +19,10 @@ use chumsky::input::{
 };
 use chumsky::inspector::Inspector;
 use chumsky::span::{SimpleSpan, Span};
+use chumsky::text::{Grapheme, Graphemes};
+use unicode_segmentation::UnicodeSegmentation;
 
-use crate::ast::GROUP_ID_MIN;
+use crate::ast::{CLUSTERS, CLUSTER_ID_MIN, CLUSTER_ID_UNKNOWN, GROUP_ID_MIN};
 use crate::build::{self, Ex, Res, P, PU};
 use crate::errs::HErr;
 use crate::val::{Fn1, HTok, Pos, Pred};
@@ -653,4 +657,151 @@ impl<'a> HInput<'a> for TreeIn<'a> {
     fn nested_in<E: HErr<'a, Self>>(a: P<'a, Self, E>) -> Res<P<'a, Self, E>> {
         Ok(build::nested_tree(a))
     }
+}
+
+// ----- graphemes: &Graphemes; gslice: &[&Grapheme] (version 4) -----
+//
+// Tokens are `&Grapheme`. `HTok` wants `'static` tokens, so the buffers of these two kinds are leaked for the
+// duration of a case (`kinds::Leaked`) and the input types are `&'static Graphemes` / `&'static [&'static Grapheme]`
+// (written `impl<'a: 'static>` so that the macros above apply unchanged).
+//
+// Everything the harness itself does with clusters (the ids, the boundaries, making `&Grapheme`s for the grammar
+// and for `gslice`) goes through `unicode_segmentation` directly or through plain bytes, never through chumsky's
+// own iterators: the tokenizer of `&Graphemes` is what is being tested.
+
+/// `&str -> &Grapheme` for a string that is one cluster. (chumsky's constructor `Grapheme::new` is private; the only
+/// public way to a `&Grapheme` is its own tokenizer.)
+pub fn grapheme_of(s: &str) -> &Grapheme {
+    // SAFETY: `Grapheme` is `#[repr(transparent)]` over `str`; this is the cast chumsky's `Grapheme::new` does
+    unsafe { &*(s as *const str as *const Grapheme) }
+}
+
+/// The string of a cluster id: the code point itself, or entry `id - CLUSTER_ID_MIN` of `CLUSTERS`.
+pub fn cluster_str(id: u32) -> Option<String> {
+    match id.checked_sub(CLUSTER_ID_MIN) {
+        Some(k) => CLUSTERS.get(k as usize).map(|s| s.to_string()),
+        None => char::from_u32(id).map(String::from),
+    }
+}
+
+/// The id of a cluster given as bytes (bytes: a broken tokenizer may hand out something that is not UTF-8).
+pub fn cluster_id(b: &[u8]) -> u32 {
+    if let Ok(s) = std::str::from_utf8(b) {
+        let mut cs = s.chars();
+        if let (Some(c), None) = (cs.next(), cs.next()) {
+            return c as u32;
+        }
+        if let Some(k) = CLUSTERS.iter().position(|c| *c == s) {
+            return CLUSTER_ID_MIN + k as u32;
+        }
+    }
+    CLUSTER_ID_UNKNOWN
+}
+
+thread_local! {
+    /// The `&'static Grapheme`s made for the token lists of grammars, one per id (a worker serves many cases).
+    static CLUSTER_TOKENS: RefCell<std::collections::HashMap<u32, &'static Grapheme>> =
+        RefCell::new(std::collections::HashMap::new());
+}
+
+impl HTok for &'static Grapheme {
+    fn from_u32(n: u32) -> Option<&'static Grapheme> {
+        CLUSTER_TOKENS.with(|m| {
+            if let Some(g) = m.borrow().get(&n) {
+                return Some(*g);
+            }
+            let s: &'static str = Box::leak(cluster_str(n)?.into_boxed_str());
+            let g = grapheme_of(s);
+            m.borrow_mut().insert(n, g);
+            Some(g)
+        })
+    }
+    fn to_u32(&self) -> u32 {
+        cluster_id(self.as_bytes())
+    }
+}
+
+/// The text of a case of the grapheme kinds with its reference segmentation.
+pub struct GText {
+    /// the concatenation of the clusters
+    pub s: String,
+    /// byte offsets of the reference cluster boundaries: `bounds[i]` = start of cluster `i`, `bounds[n] = s.len()`
+    pub bounds: Vec<usize>,
+}
+
+impl GText {
+    /// `None`: `unicode_segmentation::graphemes(s, true)` does not give back the tokens one for one (neighbours
+    /// merge, e.g. 13 followed by 10), or an id is not a cluster id.
+    pub fn new(ids: &[u32]) -> Option<GText> {
+        let parts: Vec<String> = ids.iter().map(|&id| cluster_str(id)).collect::<Option<_>>()?;
+        let s: String = parts.concat();
+        let mut bounds = Vec::with_capacity(ids.len() + 1);
+        let mut n = 0;
+        for (at, piece) in s.grapheme_indices(true) {
+            if parts.get(n).map(String::as_str) != Some(piece) {
+                return None;
+            }
+            bounds.push(at);
+            n += 1;
+        }
+        if n != parts.len() {
+            return None;
+        }
+        bounds.push(s.len());
+        Some(GText { s, bounds })
+    }
+
+    /// The reference clusters.
+    pub fn clusters(&self) -> impl Iterator<Item = &str> {
+        self.bounds.windows(2).map(|w| &self.s[w[0]..w[1]])
+    }
+
+    /// Byte offset -> index of the reference cluster that starts there (`len` for the end of the text).
+    fn pos(&self, raw: usize) -> Pos {
+        match self.bounds.binary_search(&raw) {
+            Ok(i) => Pos::Ix(i),
+            Err(_) => Pos::Bad(raw),
+        }
+    }
+
+    /// Token-index range of `part`, located in the text by address.
+    fn slice_range(&self, part: &[u8]) -> (Pos, Pos) {
+        let (s, e) = byte_range(self.s.as_ptr(), part.as_ptr(), part.len());
+        (self.pos(s), self.pos(e))
+    }
+}
+
+impl<'a: 'static> HInput<'a> for &'a Graphemes {
+    type Conv = Cur<&'a GText>;
+    /// byte offsets, printed as token indices like `str`; not a reference cluster boundary: `!<raw>`
+    fn pos(cv: &Self::Conv, raw: usize) -> Pos {
+        cv.get().pos(raw)
+    }
+    cur_impl!();
+    seq_impl!(vec);
+    value_impl!(vec);
+
+    // slices are `&Graphemes` into the text
+    const HAS_SLICE: bool = true;
+    fn to_slice<E: HErr<'a, Self>>(cv: &Self::Conv, p: P<'a, Self, E>) -> Res<P<'a, Self, E>> {
+        let whole = cv.clone();
+        Ok(build::to_slice_with(p, move |part: &'a Graphemes| whole.get().slice_range(part.as_bytes())))
+    }
+    fn extra_slice<E: HErr<'a, Self>>(
+        cv: &Self::Conv,
+        e: &mut MapExtra<'a, '_, Self, Ex<E>>,
+    ) -> Option<(Pos, Pos)> {
+        Some(cv.get().slice_range(e.slice().as_bytes()))
+    }
+}
+
+impl<'a: 'static> HInput<'a> for &'a [&'a Grapheme] {
+    type Conv = Cur<&'a [&'a Grapheme]>;
+    fn pos(cv: &Self::Conv, raw: usize) -> Pos {
+        index_pos(cv.get().len(), raw)
+    }
+    cur_impl!();
+    seq_impl!(vec);
+    value_impl!(vec);
+    slice_impl!(elems, &'a Grapheme);
 }
